@@ -11,6 +11,7 @@ package nitro
 import "os"
 import "bufio"
 import "errors"
+import "unsafe"
 
 var (
 	// DiskBlockSize - backup file reader and writer
@@ -82,6 +83,7 @@ func (f *rawFileWriter) Open(path string) error {
 func (f *rawFileWriter) WriteItem(itm *Item) error {
 	checksum, err := f.db.EncodeItem(itm, f.buf, f.w)
 	f.checksum = f.checksum ^ checksum
+	verifYield(vpFileWrite, unsafe.Pointer(f))
 	return err
 }
 
@@ -96,10 +98,12 @@ func (f *rawFileWriter) Close() error {
 		return err
 	}
 
+	verifYield(vpFileFlush, unsafe.Pointer(f))
 	if err := f.w.Flush(); err != nil {
 		f.fd.Close()
 		return err
 	}
+	verifYield(vpFileClose, unsafe.Pointer(f))
 	return f.fd.Close()
 }
 
